@@ -57,6 +57,22 @@ impl FdCapture {
     assert!(r >= 0);
     FdCapture { target, saved, file }
   }
+  /// fd `target` becomes the write end of a pipe nobody reads (SIGPIPE is ignored by the
+  /// Rust runtime, so writes fail with EPIPE)
+  fn start_closed_pipe(target: RawFd, path: &Path) -> FdCapture {
+    let file = std::fs::OpenOptions::new().create(true).truncate(true).read(true).write(true).open(path).expect("capture file");
+    let saved = unsafe { libc::dup(target) };
+    assert!(saved >= 0);
+    let mut fds = [0 as RawFd; 2];
+    let r = unsafe { libc::pipe(fds.as_mut_ptr()) };
+    assert!(r == 0);
+    unsafe {
+      libc::close(fds[0]);
+      libc::dup2(fds[1], target);
+      libc::close(fds[1]);
+    }
+    FdCapture { target, saved, file }
+  }
   fn finish(self) -> Vec<u8> {
     use std::io::{Read, Seek, SeekFrom};
     unsafe {
@@ -86,6 +102,11 @@ pub fn reset_dir(p: &Path) {
 /// Run the CLI with `args` (argv[0] included) in directory `dir`.
 /// `hash_seed` seeds every HashMap of the run; `sched` puts its threads under the baton.
 pub fn run_cli(dir: &Path, args: &[String], hash_seed: u64, sched: Option<SchedCfg>) -> CliOutcome {
+  run_cli_opts(dir, args, hash_seed, sched, false)
+}
+
+/// `stdout_closed`: fd 1 is a pipe whose read end is already closed (every write is EPIPE).
+pub fn run_cli_opts(dir: &Path, args: &[String], hash_seed: u64, sched: Option<SchedCfg>, stdout_closed: bool) -> CliOutcome {
   std::env::set_current_dir(dir).expect("chdir sandbox");
   hashseam::set_hash_seed(hash_seed);
   let cap_dir = scratch_root();
@@ -100,7 +121,7 @@ pub fn run_cli(dir: &Path, args: &[String], hash_seed: u64, sched: Option<SchedC
     .spawn(move || {
       hashseam::set_sim_tid(1);
       let _ = std::io::stdout().flush();
-      let cap_out = FdCapture::start(1, &out_path);
+      let cap_out = if stdout_closed { FdCapture::start_closed_pipe(1, &out_path) } else { FdCapture::start(1, &out_path) };
       let cap_err = FdCapture::start(2, &err_path);
       if let Some(s) = &sched2 {
         s.begin_consumer();
